@@ -71,9 +71,18 @@ def run_property(pid, tier, repo, seed):
     notes = []
 
     # ---------------- Verus units ----------------
+    verus_undecided = []
     for unit in spec.get('verus', []):
         tmpl = os.path.join(HERE, 'units', 'verus', unit + '.rs.tmpl')
-        r = verus_unit.verify_unit(tmpl, repo, os.path.join(workdir, 'verus'), unit)
+        try:
+            r = verus_unit.verify_unit(tmpl, repo, os.path.join(workdir, 'verus'), unit)
+        except (Undecided, ExtractError) as e:
+            # this unit cannot decide (lost anchor, construct outside the supported subset, solver budget): go on with the other units and
+            # the Kani harnesses - a counterexample replayed on the real code is a violation whatever the proof side can or cannot do -
+            # and report UNDECIDED at the end if nothing else fails
+            verus_undecided.append(f'{unit}: {e}')
+            notes.append(f'verus unit {unit}: undecided: ' + str(e).split('\n')[0][:300])
+            continue
         cmds.append(r['cmd'])
         solver_s += (r.get('smt_ms') or 0) / 1000.0
         tags = verus_unit.count_tags(r['text'], pid)
@@ -195,6 +204,8 @@ def run_property(pid, tier, repo, seed):
         print(f"VIOLATION property={pid} replay={path}{suffix}")
         exit_code = 1
 
+    if exit_code == 0 and verus_undecided:
+        raise Undecided(verus_undecided[0])
     wall = time.time() - t0
     level = spec.get('level', 'proof')
     cov = dict(
